@@ -3,9 +3,12 @@ package main
 import (
 	"bytes"
 	"context"
+	"errors"
 	"fmt"
+	"os"
 	"sort"
 	"strings"
+	"sync/atomic"
 	"time"
 
 	"github.com/PowerDNS/lightningstream/config"
@@ -26,6 +29,28 @@ type dbiDump struct {
 	Name  string
 	Flags uint
 	Data  []pair
+}
+
+// pollCtx is a context that turns out to be cancelled at the (left+1)-th time somebody looks at it: a shutdown
+// request arriving while a long transaction is under way
+type pollCtx struct {
+	context.Context
+	left *int32
+}
+
+var closedCh = func() chan struct{} { c := make(chan struct{}); close(c); return c }()
+
+func (c pollCtx) Done() <-chan struct{} {
+	if atomic.AddInt32(c.left, -1) < 0 {
+		return closedCh
+	}
+	return nil
+}
+func (c pollCtx) Err() error {
+	if atomic.LoadInt32(c.left) < 0 {
+		return context.Canceled
+	}
+	return nil
 }
 
 func dumpEnv(env *lmdb.Env) ([]dbiDump, uint64, error) {
@@ -407,7 +432,21 @@ func areaInstance(r *Rng, n int, dir string) (*AreaOut, error) {
 		}
 		cfg := fmt.Sprintf("(mkICfg %s %s %s %s %s %s)", cBool(native), cBool(hack), cBool(pad), cBool(recvOnly), cBool(cancelled), lst(ovc))
 
-		if recreated || r.Chance(25) {
+		isSend := recreated || r.Chance(25)
+		if isSend && !native && r.Chance(35) {
+			// an application entry with a ZERO-LENGTH value: a live entry like any other in the image (how the
+			// projection treats it later is finding F6, reported under C11)
+			clock += 1000
+			setClock(clock)
+			_ = applyApp(env, false, clock, []appOp{{DBI: "app", Key: pick(r, byteKeyPool[:6]), Val: []byte{}}})
+			before, last, _ = dumpEnv(env)
+			if os.Getenv("LSVERIF_DEBUG") != "" {
+				fmt.Fprintf(os.Stderr, "DEBUG case %d send-with-empty: hack=%v recreated=%v env=%s\n", i, hack, recreated, cEnv(before, last))
+			}
+			clock += 1000
+			setClock(clock)
+		}
+		if isSend {
 			// ---------------- SendOnce ----------------
 			var retID uint64
 			var sendErr error
@@ -572,6 +611,17 @@ func areaInstance(r *Rng, n int, dir string) (*AreaOut, error) {
 					// application that chooses its own timestamps): ordered by their timestamps like any others
 					e.TimestampNano = clock + uint64(pick(r, []time.Duration{25 * time.Hour, 49 * time.Hour, 400 * 24 * time.Hour}))
 				}
+				if name == "dup" && !plainDup && r.Chance(8) {
+					// a damaged shadow key in a dump that claims the transform (a deletion marker half of the time): no
+					// part of such a snapshot is merged
+					e.Key = append([]byte{}, k[:len(k)/2]...)
+					e.Value = nil
+					if r.Chance(50) {
+						e.Flags = 1
+					}
+					d.Entries = append(d.Entries, e)
+					continue
+				}
 				if name == "dup" && !plainDup {
 					// value is the suffix stored in the hack key; keep consistent
 					dec, _ := syncer.VerifDupSortDecodeOne(snapshot.KV{Key: k})
@@ -627,16 +677,55 @@ func areaInstance(r *Rng, n int, dir string) (*AreaOut, error) {
 		}
 		sn := buildSnapshot(fmtv, compat, snapInst, snapTS, sds)
 		upd := snapshot.Update{Snapshot: sn, NameInfo: snapshot.NameInfo{Kind: snapshot.KindSnapshot, InstanceID: snapInst, SyncerName: dbName, Timestamp: time.Unix(0, int64(snapTS))}}
+		if r.Chance(10) {
+			// somebody (a hook, an embedding application, an earlier aborted attempt) has already READ the snapshot's
+			// DBIs through their cursors: the merge still starts at the first entry
+			for _, d := range sn.Databases {
+				d.ResetCursor()
+				for {
+					if _, err := d.Next(); err != nil {
+						break
+					}
+				}
+			}
+			hist(out.Hist, "load/snapshot-read-before-the-merge")
+		}
+		// a shutdown request that arrives at the k-th look at the context (mid-transaction): the load either fails and
+		// changes nothing, or succeeds completely (oracles only for the failing runs: the model's cancellation is at the start)
+		midCancel := !cancelled && r.Chance(15)
 		var retID uint64
 		var lc bool
 		var loadErr error
 		var pan any
-		func() {
-			defer func() { pan = recover() }()
-			id, l, err := sy.LoadOnce(runCtx, env, snapInst, upd, header.TxnID(lastSynced))
-			retID, lc, loadErr = uint64(id), l, err
-		}()
-		after, last2, _ := dumpEnv(env)
+		var after []dbiDump
+		var last2 uint64
+		for k := int32(0); ; k++ {
+			if midCancel {
+				// the shutdown request arrives at the (k+1)-th look at the context, for k = 0, 1, 2, ...: every attempt
+				// that is cut short returns the cancellation and leaves the LMDB untouched; the SAME update object is
+				// then retried, until an attempt runs to the end
+				left := k
+				runCtx = pollCtx{ctx, &left}
+			}
+			func() {
+				defer func() { pan = recover() }()
+				id, l, err := sy.LoadOnce(runCtx, env, snapInst, upd, header.TxnID(lastSynced))
+				retID, lc, loadErr = uint64(id), l, err
+			}()
+			after, last2, _ = dumpEnv(env)
+			if midCancel && pan == nil && loadErr != nil && errors.Is(loadErr, context.Canceled) && k < 60 {
+				out.OracleN++
+				hist(out.Hist, "load/cancelled-mid-transaction")
+				if cEnv(after, last2) != cEnv(before, last) {
+					for _, pid := range []string{"C18", "C20"} {
+						out.Oracle = append(out.Oracle, OracleFailure{pid, "all-or-nothing", fmt.Sprintf("LoadOnce was cancelled at its %d-th look at the context and returned the cancellation, but the LMDB changed", k+1), map[string]any{"cfg": cfg, "env": cEnv(before, last)}})
+					}
+					break
+				}
+				continue
+			}
+			break
+		}
 		obs := ""
 		switch {
 		case pan != nil:
@@ -815,12 +904,22 @@ func areaInstance(r *Rng, n int, dir string) (*AreaOut, error) {
 					for k, v := range want {
 						if g, ok := got[k]; !ok || !bytes.Equal(g, v) {
 							out.Oracle = append(out.Oracle, OracleFailure{"C11", "mirror-after-load", fmt.Sprintf("DBI %s key %x: merged state is live with value %x, the application DBI has present=%v value %x", d.Name, k, v, ok, g), in})
+							if midCancel {
+								for _, pid := range []string{"C18", "C20"} {
+									out.Oracle = append(out.Oracle, OracleFailure{pid, "partial-load-reported-as-success", fmt.Sprintf("a cancellation arrived mid-transaction, LoadOnce returned SUCCESS and committed, but application DBI %s was not brought in line with the merged state (key %x: merged value %x, application DBI present=%v value %x)", d.Name, k, v, ok, g), in})
+								}
+							}
 							break
 						}
 					}
 					for k, g := range got {
 						if _, ok := want[k]; !ok {
 							out.Oracle = append(out.Oracle, OracleFailure{"C11", "mirror-after-load", fmt.Sprintf("DBI %s key %x: the application DBI holds %x but the merged state has no live non-empty entry for it", d.Name, k, g), in})
+							if midCancel {
+								for _, pid := range []string{"C18", "C20"} {
+									out.Oracle = append(out.Oracle, OracleFailure{pid, "partial-load-reported-as-success", fmt.Sprintf("a cancellation arrived mid-transaction, LoadOnce returned SUCCESS and committed, but application DBI %s still holds key %x = %x, which the merged state does not", d.Name, k, g), in})
+								}
+							}
 							break
 						}
 					}
